@@ -49,6 +49,39 @@ def probe():
     return out
 
 
+def detect_fixes():
+    """Which of the proposed repairs F30..F34 does the tree under test contain?
+    True / False, or None when neither the pinned nor the repaired code shape is recognised."""
+    import inspect, re
+    from dataclass_wizard import dumpers, class_helper
+    from dataclass_wizard.v1 import loaders as v1_loaders
+    from dataclass_wizard.environ import lookups
+    res = {}
+
+    def src(f):
+        try:
+            return re.sub(r'#[^\n]*', '', inspect.getsource(f))
+        except Exception:
+            return ''
+    s = src(dumpers._asdict_inner)
+    res['F30'] = (False if re.search(r'for t in hooks\s*:', s) else
+                  True if re.search(r'for t in (tuple|list)\(hooks\)\s*:', s) else None)
+    s = src(class_helper)
+    n_guard = len(re.findall(r'set_paths = False if \w+ else True', s))
+    n_always = len(re.findall(r'set_paths = True\b', s))
+    res['F31'] = False if (n_guard == 3 and n_always == 0) else True if (n_guard == 0 and n_always == 3) else None
+    s = src(class_helper.dataclass_field_to_default)
+    res['F32'] = (False if 'defaults = FIELD_TO_DEFAULT[cls] = {}' in s else
+                  True if re.search(r'\n\s+FIELD_TO_DEFAULT\[cls\] = defaults', s) else None)
+    s = src(v1_loaders.load_func_for_dataclass)
+    res['F33'] = (False if 'field_to_aliases.pop(CATCH_ALL' in s else
+                  True if 'field_to_aliases.get(CATCH_ALL' in s else None)
+    s = src(lookups.Env.reload.__func__)
+    i, j = s.find('cls.load_environ()'), s.find('cls.var_names')
+    res['F34'] = None if j < 0 else (True if 0 <= i < j else False)
+    return res
+
+
 # ---------------------------------------------------------------------------
 # scenario -> classes, calls
 SUBTYPE_BASES = {'int': int, 'str': str, 'float': float, 'list': list, 'dict': dict, 'tuple': tuple,
@@ -418,7 +451,13 @@ def stress_once(sc, switch):
 def handler(p):
     op = p['op']
     if op == 'probe':
-        return probe()
+        out = probe()
+        try:
+            out['fixes'] = detect_fixes()
+        except Exception as e:
+            out['fixes'] = {}
+            out['fixes_error'] = '%s: %s' % (type(e).__name__, e)
+        return out
     preimport()
     if op == 'explore':
         out = explore(p['scenario'], p.get('bound', 2), p.get('max_runs', 500), p.get('seed', 0))
